@@ -385,7 +385,8 @@ TracePoolDigest ==
              /\ Chk("C18", "a thread panicked while observing a state concurrently: " \o e.dg,
                     SubSeq(e.dg, 1, 6) # "panic:")
              /\ Chk("C18", "a state observed concurrently with other states differs from its sequential observation",
-                    e.line \in 1..Len(Rec) /\ Rec[e.line].ev \in {"reset", "act"} /\ Rec[e.line].dg = e.dg))
+                    /\ e.line \in 1..Len(Rec) /\ Rec[e.line].ev \in {"reset", "act"}
+                    /\ (IF e.light = 1 THEN Rec[e.line].ldg ELSE Rec[e.line].dg) = e.dg))
        /\ TLCSet(24, TLCGet(24) + 1)
        /\ stack' = SubSeq(stack, 1, Len(stack) - e.pop)
   /\ l' = l + 1
